@@ -97,7 +97,8 @@ Queries(N, mm, ver) ==
 CaseOf(mm, ver, m2, K) ==
   LET N == ProofNodes(mm, ver, K)
       F == Rows(m2, ver)
-      Adv == <<N, N \cup F, F \cup {RootEnc(mm, ver)}>> \o SortedSeq({N \ {x} : x \in N \ {RootEnc(mm, ver)}})
+      xs == SortedSeq(N \ {RootEnc(mm, ver)})
+      Adv == <<N, N \cup F, F \cup {RootEnc(mm, ver)}>> \o [i \in 1..Len(xs) |-> N \ {xs[i]}]
   IN [entries |-> PEntries(mm), v1 |-> ver, keys |-> SortedSeq(K), root |-> Root(mm, ver),
       proof |-> SortedSeq(N),
       supplies |-> [i \in 1..Len(Adv) |-> [nodes |-> SortedSeq(Adv[i]), queries |-> Queries(Adv[i], mm, ver)]]]
@@ -107,7 +108,9 @@ RandMap == LET D == RandomElement(SUBSET PKeys) IN [k \in D |-> RandomElement({v
 GPNext ==
   \/ /\ ~done /\ Len(hist) < PNum
      /\ \E mm \in {RandMap} : \E m2 \in {RandMap} : \E ver \in {RandomElement({b \in BOOLEAN : Len(hist) >= 0})} :
-        \E K \in {RandomElement({S \in SUBSET PAll : S # {} /\ Len(hist) >= 0})} :
+        \E K \in {IF DOMAIN mm # {} /\ RandomElement({i \in 1..3 : Len(hist) >= 0}) > 1
+                  THEN RandomElement({S \in SUBSET DOMAIN mm : S # {} /\ Len(hist) >= 0})   \* present keys only
+                  ELSE RandomElement({S \in SUBSET PAll : S # {} /\ Len(hist) >= 0})} :
           hist' = Append(hist, CaseOf(mm, ver, m2, K))
      /\ UNCHANGED <<pm, pv1, pm2, done>>
   \/ /\ ~done /\ Len(hist) = PNum /\ done' = TRUE /\ UNCHANGED <<pm, pv1, pm2, hist>>
